@@ -10,7 +10,9 @@ Display plain and {:#}, Debug, to_json - the three textual views parsed back int
 flatten, find_tagged, peek, len, is_empty) and every iterator run (returned item, len, size_hint
 and peek after every step).  TLC validates every answer (Trace_TokenTree), including that the real
 token stream is well formed.  impl -> spec: random forests (<= 40 pairs, depth <= 8, multi-byte
-text) with 50-step iterator runs, and the token streams of real parses of the grammar workloads."""
+text) with 50-step iterator runs.  Grammar-driven parses: the token queue every successful VM parse of the grammar
+workloads (enumerated slices with every modifier, random grammars) leaves behind is validated as a well-formed stream
+(Trace_Streams)."""
 import json
 import os
 from concurrent.futures import ThreadPoolExecutor
@@ -90,14 +92,76 @@ def run(ctx):
             ctx.sample({"kind": "observed tree validated by TLC", "forest": x["forest"], "construction": x["src"],
                         "one_iterator_run": (x["runs"] or [None])[-1]})
         os.remove(path)
-    ctx.cov["traces_validated_against_impl"] = trees + rtrees
-    ctx.cov["evaluations"] = runs + rruns
+    # ---- the first sentence on grammar-driven parses: the queue a successful VM parse leaves behind (hook H1)
+    sbatches = []
+    stot = {"grammars": 0, "cases": 0, "tokens": 0}
+    for (name, shards, size, length) in ([("wsmod", 2, 1, 4), ("core", 2, 3, 3)] if quick else [("wsmod", 2, 1, 4), ("core", 8, 4, 3), ("ws", 8, 3, 3), ("wsref", 4, 3, 3)]):
+        cases, rs, n = gen_slice(ctx, name, shards, size, length, jobs=12)
+        for r in rs:
+            ctx.cov["states"] += r.distinct
+            ctx.cov["transitions"] += r.generated
+        out = os.path.join(ctx.work, "str_%s.ndjson" % name)
+        s = run_json([vh, "streams-emit", "--cases", cases, "--out", out], timeout=6000)
+        os.remove(cases)
+        for k in stot:
+            stot[k] += s[k]
+        sbatches.append(out)
+    # rule calls three deep under every triple of modifiers: a rule that runs silenced (atomic context, look-ahead)
+    # with emitting rules below it is where the Start / End bookkeeping of `rule` can go wrong
+    nest = os.path.join(ctx.work, "nest3.ndjson")
+    with open(nest, "w") as f:
+        for t0 in ("", "_", "@", "$", "!"):
+            for t1 in ("", "_", "@", "$", "!"):
+                for t2 in ("", "_", "@", "$", "!"):
+                    for body0 in ('"<" ~ r1 ~ ">"', 'r1 ~ ("," ~ r1)*', '&r1 ~ r1', '!("q" ~ r1) ~ r1 ~ r1?'):
+                        text = 'r0 = %s{ %s }\nr1 = %s{ r2 ~ ("," ~ r2)* }\nr2 = %s{ "x" ~ ("-" ~ "x")? ~ r3? }\nr3 = { "y" }\nWHITESPACE = _{ " " }\n' % (t0, body0, t1, t2)
+                        inputs = ["<x>", "<x-x,x>", "x,x", "x-x", "<x,x y>", "<x, x-xy>", "x", "<xy,xy>", "x,x,x-x", "< x >"]
+                        f.write(json.dumps({"text": text, "cases": [{"start": "r0", "inp": [ord(c) for c in i], "exp": {"k": "unknown"}} for i in inputs]}) + "\n")
+    out = os.path.join(ctx.work, "str_nest3.ndjson")
+    s = run_json([vh, "streams-emit", "--cases", nest, "--out", out], timeout=6000)
+    os.remove(nest)
+    for k in stot:
+        stot[k] += s[k]
+    sbatches.append(out)
+    for i in range(3 if quick else 24):
+        out = os.path.join(ctx.work, "str_rand_%d.ndjson" % i)
+        s = run_json([vh, "streams-emit", "--seed", str(ctx.seed * 100 + 70 + i), "--grammars", "400", "--out", out], timeout=6000)
+        for k in stot:
+            stot[k] += s[k]
+        sbatches.append(out)
+    parts = []
+    for b in sbatches:
+        lines = open(b).read().splitlines()
+        os.remove(b)
+        for j in range(4):
+            sub = lines[j::4]
+            if sub:
+                pf = "%s.%d" % (b, j)
+                open(pf, "w").write("\n".join(sub) + "\n")
+                parts.append(pf)
+    for (path, r, rej, sk) in validate_batches(ctx, "Trace_Streams", parts, jobs=12, timeout=6000):
+        ctx.cov["states"] += r.distinct
+        ctx.cov["transitions"] += r.generated
+        recs = None
+        seen = {}
+        for (kind, gid, obj) in rej:
+            if recs is None:
+                recs = {x["id"]: x for x in read_ndjson(path)}
+            seen[gid] = seen.get(gid, 0) + 1
+            if seen[gid] > 1:
+                continue
+            ctx.violation({"kind": "trace", "spec": "Trace_Streams/TokenTree", "grammar": recs[gid]["text"], "start": obj.get("start"),
+                           "inp": obj.get("inp"), "input": "".join(chr(c) for c in obj.get("inp", [])), "token_queue": obj.get("q")})
+        os.remove(path)
+    ctx.cov["engines"].append({"name": "Trace_Streams", "role": "token queue of successful grammar-driven VM parses is a well-formed stream", **stot})
+    ctx.cov["traces_validated_against_impl"] = trees + rtrees + stot["cases"]
+    ctx.cov["evaluations"] = runs + rruns + stot["cases"]
     ctx.cov["distinct_nontrivial"] = nontriv
     ctx.cov["engines"].append({"name": "Trace_TokenTree", "role": "every recorded answer checked against TokenTree.tla",
                                "random_tree_constructions": rtrees, "random_iterator_runs": rruns})
     ctx.assumptions += ["the three textual views are parsed back by trusted glue (Display {:#}: 45 lines, Debug: 50 lines, to_json: 20 lines)",
                         "rules are u8 values; the 'real parse' construction drives pest::state with rule/skip/tag_node calls that produce the forest",
-                        "well-formedness of streams produced by grammar-driven parses is additionally implied by C01's token-tree equality"]
+                        "grammar-driven parses: the queue is read through hook H1 when the parse returns (kind, byte position, rule)"]
 
 
 def replay(ctx, path):
